@@ -45,17 +45,92 @@ NOT_APPLICABLE = {
            'no function-level contract relates generated tokens to a parsed value (DESIGN.md §5 C20)',
 }
 
+_T = ('contract-based deductive verification: Verus requires/ensures/invariants on the mechanically extracted real '
+      'functions (unbounded), Kani function-level harnesses on the real crate (complete over the domain, or '
+      'bounded stand-ins labelled as such)')
+_N = ('assume_specification for core integer ops without vstd specs; external_body stubs listed in the evidence; '
+      'x86_64 carry intrinsics assumed equal to the generic versions (Kani runs use force_bits="64"); lowering rules '
+      'D1-D8; Verus/z3, Kani/CBMC, rustc')
+
 PROPS = {
-    'C01': {
-        'level': 'proof',
-        'claim': 'Unbounded Verus proofs (all slice lengths, all word values) that the add/sub word kernels of '
-                 'integer/src/add.rs and the word primitives compute exactly val(lhs) ± val(rhs) with the '
-                 'returned carry/borrow; complete Kani proofs of the scalar helpers. Dispatch/multiplication '
-                 'layers are listed as undecided until their units land.',
-        'note': 'assume_specification for overflowing_add/sub and From<bool>; x86_64 carry intrinsics assumed '
-                'equal to the generic versions; lowering rules D1-D8; Verus/z3/Kani/CBMC.',
-        'verus': ['int_prim', 'int_add'],
-        'kani': ['int_math'],
-        'undecided': [],
-    },
+    'C01': {'level': 'proof', 'technique': _T, 'note': _N,
+            'claim': 'Unbounded Verus proofs (all slice lengths, all word values) that the word kernels behind + - * '
+                     '(integer/src/add.rs, mul/mod.rs, mul/simple.rs, math.rs, primitive.rs) compute exactly '
+                     'val(lhs) +- val(rhs) resp. the exact product with the returned carry/borrow/sign; complete Kani '
+                     'proofs of scalar helpers. Karatsuba/Toom-3/pow glue and the Repr dispatch are listed per run '
+                     'under "undecided"/"bounded_units".'},
+    'C02': {'level': 'proof', 'technique': _T, 'note': _N + '; num_modular dividers assumed (dependency)',
+            'claim': 'Verus proofs of the sign conventions of every IBig division form over the unsigned division '
+                     'contract, and of the word-divisor kernels over assumed num_modular reciprocal-division contracts; '
+                     'multi-word schoolbook/divide-and-conquer division is bounded or undecided (see evidence).'},
+    'C03': {'level': 'proof', 'technique': _T, 'note': _N + '; IBig seen through stub contracts',
+            'claim': 'Verus proofs that the six rounding modes decide NoOp/AddOne/SubOne exactly per their definition '
+                     'and that a single rounding of an exact value obeys the ulp/side/flag contract; the per-operation '
+                     'alignment code (add/div/sqrt) is undecided (f32 log2 estimates, see evidence).'},
+    'C04': {'level': 'proof', 'technique': _T, 'note': _N + '; UBig/IBig/Gcd seen through stub contracts',
+            'claim': 'Verus proofs over big-integer stubs that reduction and the arithmetic arms return the exact '
+                     'rational (cross-multiplied) and keep the canonical form (positive coprime denominator, 0/1).'},
+    'C05': {'level': 'other', 'technique': _T, 'note': _N,
+            'claim': 'Kani harnesses on the real representation code: every constructor keeps the normal form '
+                     '(bounded sizes), and ==/cmp/hash on normal forms follow the value (words <= 3, full 64-bit '
+                     'symbolic words). Bounded: not a proof for longer operands. Float/rational comparison shortcuts '
+                     'are undecided.',
+            'explanation': 'bounded model checking (CBMC via Kani) of the real comparison/representation code under '
+                           'function-level contracts; sizes bounded as stated per harness'},
+    'C06': {'level': 'proof', 'technique': _T, 'note': _N,
+            'claim': 'Complete Kani proofs over the whole input domain that f32/f64 encode/decode are exact or '
+                     'correctly rounded (RNE) with a truthful flag, of the sign-magnitude conversions for every '
+                     'primitive width and of the double-word to_f32/to_f64 paths; multi-word and float/rational '
+                     'conversions are bounded or undecided (see evidence).'},
+    'C07': {'level': 'proof', 'technique': _T, 'note': _N,
+            'claim': 'Complete Kani proofs of digit decoding for all bytes x radices; bounded harnesses for the byte '
+                     'and chunk codecs; radix conversion algorithms and Formatter layout are undecided.'},
+    'C08': {'level': 'proof', 'technique': _T, 'note': _N,
+            'claim': 'Only the clauses "conversion from f32/f64 is exact" (on top of the decode proof) and '
+                     '"with_precision is one correct rounding" are decided; parser/printer/base change are undecided.'},
+    'C09': {'level': 'proof', 'technique': _T, 'note': _N,
+            'claim': 'Unbounded Verus proofs of the shift kernels and trailing-bit scans against the arithmetic '
+                     'meaning (multiplication / floor division by 2^n, least set/clear bit); complete Kani proofs of '
+                     'the scalar bit helpers; two\'s-complement sign cases bounded (see evidence).'},
+    'C10': {'level': 'proof', 'technique': _T, 'note': _N + '; IBig/UBig seen through stub contracts',
+            'claim': 'Verus proofs that the rounding primitives follow the definition of each of the six modes and '
+                     'that RBig trunc/floor/ceil/round/fract return the defined neighbour with trunc+fract = x.'},
+    'C12': {'level': 'proof', 'technique': _T, 'note': _N,
+            'claim': 'Complete Kani proofs for u8/u16 gcd/gcd_ext/sqrt/cbrt and the no_std log2 estimator over their '
+                     'whole domain; big-integer roots/gcd/log are bounded or undecided (Lehmer, f32-steered loops).'},
+    'C13': {'level': 'proof', 'technique': _T, 'note': _N,
+            'claim': 'Unbounded Verus proofs, on top of the C01 kernel contracts, that multi-word residue + and - '
+                     'return the residue of the integer result and stay in [0, m) for every modulus length; '
+                     'multiplication/pow/inv are bounded or undecided (see evidence).'},
+    'C14': {'level': 'other', 'technique': _T, 'note': _N,
+            'claim': 'Kani harness: integer vs f32 NumOrd equals the exact comparison for all f32 bit patterns and '
+                     'inline integers (bounded). Float/rational cross-type comparison filters are undecided.',
+            'explanation': 'bounded model checking of the real NumOrd impls against an exact integer oracle'},
+    'C15': {'level': 'other', 'technique': _T, 'note': _N,
+            'claim': 'Relational Kani harnesses on the macro-expanded operator impls: every call form returns the same '
+                     'value for operands up to 3 words (bounded); clone/clone_from equal and independent.',
+            'explanation': 'bounded model checking (CBMC via Kani) of relational call-form contracts on the real impls'},
+    'C16': {'level': 'proof', 'technique': _T, 'note': _N + '; Kani proofs do not establish termination',
+            'claim': 'Aggregates, over every function under Verus contract, the proved absence of panics (bounds, '
+                     'unwrap, overflow, debug assertions) under the stated precondition and termination (decreases); '
+                     'plus must-panic contracts for guarded preconditions. Whole-API exploration is not attempted.'},
+    'C17': {'level': 'other', 'technique': _T, 'note': _N + '; leak freedom unchecked',
+            'claim': 'Kani on the real unsafe storage code, inductively: from an arbitrary well-formed state of bounded '
+                     'size every Buffer/Repr operation is memory-safe and re-establishes the representation '
+                     'invariant. Bounded sizes: not a proof.',
+            'explanation': 'bounded model checking (CBMC pointer/bounds/double-free checks) of one-operation '
+                           'inductive steps over arbitrary well-formed states of bounded size'},
+    'C18': {'level': 'proof', 'technique': _T, 'note': _N + '; UBig/IBig seen through stub contracts',
+            'claim': 'is_simpler_than is proved to be the documented lexicographic order; optimality of simplest_in '
+                     'and the Farey-neighbour functions is undecided (needs Stern-Brocot theory).'},
+    'C19': {'level': 'proof', 'technique': _T, 'note': _N,
+            'claim': 'The kernel units are re-verified with Word = u32 against the same value-level contracts '
+                     '(thorough tier), debug assertions of functions under contract are proved (D3), and the no_std '
+                     'log2 estimator is proved in a --no-default-features build. Serialization is undecided.'},
 }
+
+for _p, _u in _UNITS.items():
+    if _p in PROPS:
+        for _k, _v in _u.items():
+            PROPS[_p].setdefault(_k, [])
+            PROPS[_p][_k] = PROPS[_p][_k] + [x for x in _v if x not in PROPS[_p][_k]]
